@@ -135,7 +135,11 @@ def evaluate__uri_from_qname(self: XPathFunction, context: ta.ContextType = None
         else:
             code = 'XPTY0004'
         raise self.error(code, 'argument has an invalid type %r' % type(qname))
-    return AnyURI(qname.uri or '')
+
+    try:
+        return AnyURI(qname.uri or '')
+    except ValueError as err:
+        raise self.error('FORG0001', err) from None
 
 
 @method(function('namespace-uri-for-prefix', nargs=2,
@@ -464,7 +468,8 @@ def evaluate__avg(self: XPathFunction, context: ta.ContextType = None) \
     else:
         try:
             return sum(
-                float(x) if isinstance(x, Decimal) else x for x in values  # type: ignore[misc]
+                get_double(x) if isinstance(x, (Decimal, int)) else x  # type: ignore[misc]
+                for x in values
             ) / len(values)
         except TypeError as err:
             if isinstance(context, XPathSchemaContext):
@@ -497,9 +502,10 @@ def evaluate__max_min_functions(self: XPathFunction, context: ta.ContextType = N
         elif any(isinstance(x, float) and math.isnan(x) for x in values):
             return float_class('NaN')
         elif all(isinstance(x, (int, float, Decimal)) for x in values):
-            return float_class(
-                aggregate_func(cast(list[NumericType], values))
-            )
+            result = aggregate_func(cast(list[NumericType], values))
+            if isinstance(result, int):
+                result = get_double(result)  # can be out of the range of xs:double
+            return float_class(result)
         return aggregate_func(values)  # type: ignore[type-var]
 
     values: list[AtomicType] = []
